@@ -170,9 +170,11 @@ class CallMixin:
             raise Unsupported("old() outside a postcondition")
         o = self.old_state
         saved = (st.H, st.alloc_base, st.alloc_off)
+        saved_y = st.yielded
         oenv = o.env
         # evaluate in the old heap but with the current parameter bindings (parameters are not reassigned in specs)
         st.H = dict(o.H)
+        st.yielded = o.yielded          # yielded() under old() is what had been yielded at the old state (function / loop entry)
         try:
             v = self.ev1(expr, st)
             if v.k == "ref" and v.cls in ("list", "tuple"):
@@ -185,6 +187,7 @@ class CallMixin:
                       cls=v.cls)
             return v
         finally:
+            st.yielded = saved_y
             o.H.update({k: t for k, t in st.H.items() if k not in o.H})
             st.H = saved[0]
             for k, t in o.H.items():
